@@ -947,7 +947,7 @@ func (g *Gen) mergeGhost(name string, vals []Val, conds []string) Val {
 		for _, v := range vals {
 			ts = append(ts, v.(IntV).T)
 		}
-		return IntV{g.mergeTerms("g_"+name, "Int", ts, conds)}
+		return IntV{g.mergeTerms("g_"+name, g.intSort(), ts, conds)}
 	case BoolV:
 		var ts []string
 		for _, v := range vals {
@@ -971,7 +971,7 @@ func (g *Gen) mergeGhost(name string, vals []Val, conds []string) Val {
 func (g *Gen) ghostFresh(typ, hint string) Val {
 	switch typ {
 	case "int":
-		return IntV{g.fresh(hint, "Int")}
+		return IntV{g.fresh(hint, g.intSort())}
 	case "bool":
 		return BoolV{g.fresh(hint, "Bool")}
 	case "seq":
@@ -1136,7 +1136,7 @@ func (g *Gen) loopKeyEpoch(st *State, li *loopInfo, key string) {
 func (g *Gen) havocGhost(name string, v Val) Val {
 	switch v.(type) {
 	case IntV:
-		return IntV{g.fresh("g_"+name, "Int")}
+		return IntV{g.fresh("g_"+name, g.intSort())}
 	case BoolV:
 		return BoolV{g.fresh("g_"+name, "Bool")}
 	case StrV:
